@@ -334,3 +334,83 @@ def r6_transform_column(ck, P):
                     ck.ok(R, '%s: vector = column %s of the transform' % (f.name, sorted(cols)))
     if n == 0:
         ck.incomplete(R, 'no vector filled from transform entries found in the gradient units')
+
+
+def r7_projective_split(ck, P):
+    """a pixel loop that never divides by the homogeneous coordinate is only for transforms whose w is identically 1"""
+    from .factors import _loops_of
+    R = ck.rule('C13-R7', 'in a gradient scanline function that has both a pixel loop whose positions derive from the homogeneous coordinate w and one whose positions do not, the latter cannot be reached when a transform is present and w differs from 1.0 (partial evaluation with `w == pixman_fixed_1` false and `transform == NULL` false)', floor=2)
+    n = 0
+    for un, u in P.units.items():
+        if 'gradient' not in un:
+            continue
+        L = _loops_of(u)
+        for fn, loops in L.items():
+            f = u.functions.get(fn)
+            if f is None:
+                continue
+            wl = set()
+            for x in f.insts():
+                if x.op == 'load':
+                    p = f.path(x.a[0]); q = list(p[1])
+                    if len(q) >= 2 and q[-2] == 'pixman_vector.vector' and q[-1] == '[2]' and f.root(p)[0] == 'alloca':
+                        wl.add(x.i)
+            if not wl:
+                continue
+            memo = {}
+
+            def dep_w(o, d=0):
+                if o[0] != 'v' or d > 30:
+                    return False
+                if o[1] in memo:
+                    return memo[o[1]]
+                memo[o[1]] = False
+                x = f.by_id[o[1]]
+                r = x.i in wl or (x.op not in ('load', 'call', 'alloca') and any(dep_w(a, d + 1) for a in x.a))
+                memo[o[1]] = r
+                return r
+
+            pixel_loops = []
+            for lp in loops:
+                if any(l2['parent'] == lp['header'] for l2 in loops):
+                    continue
+                blocks = lp['blocks']
+                def is_buf(o):
+                    if o[0] != 'v':
+                        return False
+                    r_ = f.root(f.path(o))
+                    return r_[0] == 'phi' and f.by_id[r_[1]].dv == 'buffer'
+                stores = [x for b in blocks for x in f.blocks[b].insts if (x.op == 'store' and is_buf(x.a[1])) or (x.op == 'call' and not (isinstance(x.callee, str) and x.callee.startswith('llvm.')) and any(is_buf(o) for o in x.a))]
+                if not stores:
+                    continue
+                # the loop takes w into account when anything it computes with derives from w (a division inside, or quantities divided before the loop)
+                divides = any(dep_w(o) for b in blocks for x in f.blocks[b].insts if x.op not in ('phi',) or True for o in x.a if o[0] == 'v')
+                pixel_loops.append((lp, divides))
+            if not any(d for lp, d in pixel_loops) or all(d for lp, d in pixel_loops):
+                continue
+            ck.saw(f)
+
+            def known(x):
+                if x.op == 'icmp' and x.d['p'] in ('eq', 'ne'):
+                    vs = [f.strip_casts(o) for o in x.a]
+                    cs = [int(o[1]) for o in x.a if o[0] == 'c']
+                    if any(o[0] == 'v' and o[1] in wl for o in vs) and cs and cs[0] == 65536:
+                        return int(x.d['p'] == 'ne')
+                    # transform == NULL is false
+                    if any(o[0] == 'n' for o in x.a) and any(o[0] == 'v' and f.v(o) is not None and f.v(o).op == 'load' and f.last_field(f.path(f.v(o).a[0])) == 'image_common.transform' for o in vs):
+                        return int(x.d['p'] == 'ne')
+                return None
+
+            targets = {lp['header'] for lp, d in pixel_loops if not d}
+            hit = common.reach_under(f, known, targets)
+            for lp, d in pixel_loops:
+                if d:
+                    continue
+                n += 1
+                where = '%s: pixel loop at block %d that does not divide by w' % (f.name, lp['header'])
+                if lp['header'] in hit:
+                    ck.violation(R, f.name, 'non-projective pixel loop reachable with w != 1', '%s can enter its pixel loop that never divides by the homogeneous coordinate although a transform is present and w is not 1.0: positions are then taken about the wrong point for transforms whose bottom row is not (0, 0, 1)' % f.name, f.blocks[lp['header']].insts[0].loc())
+                else:
+                    ck.ok(R, where + ' is unreachable when w != 1.0')
+    if n == 0:
+        ck.incomplete(R, 'no gradient function with a dividing and a non-dividing pixel loop found')
